@@ -139,6 +139,7 @@ class Out:
         self.frontier = []
         self.outcomes = set()
         self.samples = []
+        self.table = {}  # uncapped key -> value channel (e.g. per-program digests)
 
     def violate(self, prop, sig, desc, replay, size):
         self.vcount[sig] = self.vcount.get(sig, 0) + 1
@@ -157,6 +158,7 @@ class Out:
         for sig, c in o.vcount.items():
             self.vcount[sig] = self.vcount.get(sig, 0) + c
         self.states |= o.states
+        self.table.update(o.table)
         self.outcomes |= o.outcomes
         if len(self.outcomes) > 5000:
             self.outcomes = set(list(self.outcomes)[:5000])
